@@ -267,6 +267,41 @@ def r3_r5_resolvers(ctx, sym, ids=('R3', 'R5'), writers=True, model=None):
                           'writer:%s.%s@%s' % (hit[0], hit[1], q), m, node,
                           "report.%s is mutated (%s) other than by appending/clearing inside Report" % hit,
                           "creation order of feedback is no longer the list order (tie-break changes)")
+    # a Report method may hand one of the two lists to a helper of Report (`self._file(fb, self.feedback, True)`): the
+    # helper's parameter is then an alias of the list, and what it does with it counts as a write of Report's own
+    rci = sym.find_class(REPORT, 'Report')
+    for q, f in rmod.functions.items():
+        if not q.startswith('Report.'):
+            continue
+        for c in ast.walk(f):
+            if not (isinstance(c, ast.Call) and isinstance(c.func, ast.Attribute) and norm(c.func.value) == 'self'):
+                continue
+            found = sym.method(rci, c.func.attr) if rci is not None else None
+            callee = found[1] if isinstance(found, tuple) else found
+            if not isinstance(callee, ast.FunctionDef):
+                continue
+            static = any(dotted(d) == 'staticmethod' for d in callee.decorator_list)
+            params = [a.arg for a in callee.args.args][0 if static else 1:]
+            for i, a in enumerate(c.args):
+                if isinstance(a, ast.Attribute) and a.attr in ('feedback', 'ignored_feedback') and \
+                        norm(a.value) == 'self' and i < len(params):
+                    alias = params[i]
+                    for u in ast.walk(callee):
+                        if isinstance(u, ast.Call) and isinstance(u.func, ast.Attribute) and u.func.attr in MUT and \
+                                isinstance(u.func.value, ast.Name) and u.func.value.id == alias:
+                            n += 1
+                            ctx.check(u.func.attr in ('append', 'clear'), R3,
+                                      'writer:%s.%s@%s(via %s)' % (a.attr, u.func.attr, q, callee.name), rmod, u,
+                                      "report.%s is mutated (%s) through a helper other than by appending/clearing" % (
+                                          a.attr, u.func.attr),
+                                      "creation order of feedback is no longer the list order (tie-break changes)")
+                        elif isinstance(u, (ast.Assign, ast.AugAssign)) and any(
+                                isinstance(t, ast.Subscript) and isinstance(t.value, ast.Name) and t.value.id == alias
+                                for t in (u.targets if isinstance(u, ast.Assign) else [u.target])):
+                            n += 1
+                            ctx.fail(R3, 'writer:%s.item-assign@%s(via %s)' % (a.attr, q, callee.name), rmod, u,
+                                     "report.%s is assigned into through a helper" % a.attr,
+                                     "creation order of feedback is no longer the list order")
     ctx.floor(R3, 'writers of report.feedback', n, 6)
 
 
